@@ -136,3 +136,177 @@ package vm
 //@   case OpMap: assume-compiled size >= 0
 //@   case OpCallFast: exempt-alloc the argument vector of a variadic call is not a collection built by the expression
 //@   case OpRange: on-budget-panic (max - min + 1 > 0 ==> galloc() + (max - min + 1) >= vm.limit) && (max - min + 1 <= 0 ==> galloc() >= vm.limit)
+
+// stack / scope effect and operand kind of every opcode: proved against the case bodies (C05) and used by
+// the bytecode logic that checks the compiler's emission templates (Layer B)
+//@   case OpPush: stack -0 +1
+//@   case OpPush: scopes +0
+//@   case OpPush: operand const
+//@   case OpPop: stack -1 +0
+//@   case OpPop: scopes +0
+//@   case OpPop: operand none
+//@   case OpRot: stack -2 +2
+//@   case OpRot: scopes +0
+//@   case OpRot: operand none
+//@   case OpFetch: stack -0 +1
+//@   case OpFetch: scopes +0
+//@   case OpFetch: operand const
+//@   case OpFetchNilSafe: stack -0 +1
+//@   case OpFetchNilSafe: scopes +0
+//@   case OpFetchNilSafe: operand const
+//@   case OpFetchMap: stack -0 +1
+//@   case OpFetchMap: scopes +0
+//@   case OpFetchMap: operand const
+//@   case OpTrue: stack -0 +1
+//@   case OpTrue: scopes +0
+//@   case OpTrue: operand none
+//@   case OpFalse: stack -0 +1
+//@   case OpFalse: scopes +0
+//@   case OpFalse: operand none
+//@   case OpNil: stack -0 +1
+//@   case OpNil: scopes +0
+//@   case OpNil: operand none
+//@   case OpNegate: stack -1 +1
+//@   case OpNegate: scopes +0
+//@   case OpNegate: operand none
+//@   case OpNot: stack -1 +1
+//@   case OpNot: scopes +0
+//@   case OpNot: operand none
+//@   case OpEqual: stack -2 +1
+//@   case OpEqual: scopes +0
+//@   case OpEqual: operand none
+//@   case OpEqualInt: stack -2 +1
+//@   case OpEqualInt: scopes +0
+//@   case OpEqualInt: operand none
+//@   case OpEqualString: stack -2 +1
+//@   case OpEqualString: scopes +0
+//@   case OpEqualString: operand none
+//@   case OpJump: stack -0 +0
+//@   case OpJump: scopes +0
+//@   case OpJump: operand jump
+//@   case OpJumpIfTrue: stack -0 +0
+//@   case OpJumpIfTrue: scopes +0
+//@   case OpJumpIfTrue: operand jump
+//@   case OpJumpIfFalse: stack -0 +0
+//@   case OpJumpIfFalse: scopes +0
+//@   case OpJumpIfFalse: operand jump
+//@   case OpJumpBackward: stack -0 +0
+//@   case OpJumpBackward: scopes +0
+//@   case OpJumpBackward: operand back
+//@   case OpIn: stack -2 +1
+//@   case OpIn: scopes +0
+//@   case OpIn: operand none
+//@   case OpLess: stack -2 +1
+//@   case OpLess: scopes +0
+//@   case OpLess: operand none
+//@   case OpMore: stack -2 +1
+//@   case OpMore: scopes +0
+//@   case OpMore: operand none
+//@   case OpLessOrEqual: stack -2 +1
+//@   case OpLessOrEqual: scopes +0
+//@   case OpLessOrEqual: operand none
+//@   case OpMoreOrEqual: stack -2 +1
+//@   case OpMoreOrEqual: scopes +0
+//@   case OpMoreOrEqual: operand none
+//@   case OpAdd: stack -2 +1
+//@   case OpAdd: scopes +0
+//@   case OpAdd: operand none
+//@   case OpSubtract: stack -2 +1
+//@   case OpSubtract: scopes +0
+//@   case OpSubtract: operand none
+//@   case OpMultiply: stack -2 +1
+//@   case OpMultiply: scopes +0
+//@   case OpMultiply: operand none
+//@   case OpDivide: stack -2 +1
+//@   case OpDivide: scopes +0
+//@   case OpDivide: operand none
+//@   case OpModulo: stack -2 +1
+//@   case OpModulo: scopes +0
+//@   case OpModulo: operand none
+//@   case OpExponent: stack -2 +1
+//@   case OpExponent: scopes +0
+//@   case OpExponent: operand none
+//@   case OpRange: stack -2 +1
+//@   case OpRange: scopes +0
+//@   case OpRange: operand none
+//@   case OpMatches: stack -2 +1
+//@   case OpMatches: scopes +0
+//@   case OpMatches: operand none
+//@   case OpMatchesConst: stack -1 +1
+//@   case OpMatchesConst: scopes +0
+//@   case OpMatchesConst: operand const
+//@   case OpContains: stack -2 +1
+//@   case OpContains: scopes +0
+//@   case OpContains: operand none
+//@   case OpStartsWith: stack -2 +1
+//@   case OpStartsWith: scopes +0
+//@   case OpStartsWith: operand none
+//@   case OpEndsWith: stack -2 +1
+//@   case OpEndsWith: scopes +0
+//@   case OpEndsWith: operand none
+//@   case OpIndex: stack -2 +1
+//@   case OpIndex: scopes +0
+//@   case OpIndex: operand none
+//@   case OpSlice: stack -3 +1
+//@   case OpSlice: scopes +0
+//@   case OpSlice: operand none
+//@   case OpProperty: stack -1 +1
+//@   case OpProperty: scopes +0
+//@   case OpProperty: operand const
+//@   case OpPropertyNilSafe: stack -1 +1
+//@   case OpPropertyNilSafe: scopes +0
+//@   case OpPropertyNilSafe: operand const
+//@   case OpLen: stack -0 +1
+//@   case OpLen: scopes +0
+//@   case OpLen: operand none
+//@   case OpCast: stack -1 +1
+//@   case OpCast: scopes +0
+//@   case OpCast: operand cast
+//@   case OpStore: stack -1 +0
+//@   case OpStore: scopes +0
+//@   case OpStore: operand const
+//@   case OpLoad: stack -0 +1
+//@   case OpLoad: scopes +0
+//@   case OpLoad: operand const
+//@   case OpInc: stack -0 +0
+//@   case OpInc: scopes +0
+//@   case OpInc: operand const
+//@   case OpBegin: stack -0 +0
+//@   case OpBegin: scopes +1
+//@   case OpBegin: operand none
+//@   case OpEnd: stack -0 +0
+//@   case OpEnd: scopes -1
+//@   case OpEnd: operand none
+//@   case OpCall: stack-dyn call.Size
+//@   case OpCall: scopes +0
+//@   case OpCall: operand const
+//@   case OpCallFast: stack-dyn call.Size
+//@   case OpCallFast: scopes +0
+//@   case OpCallFast: operand const
+//@   case OpMethod: stack-dyn call.Size + 1
+//@   case OpMethod: scopes +0
+//@   case OpMethod: operand const
+//@   case OpMethodNilSafe: stack-dyn call.Size + 1
+//@   case OpMethodNilSafe: scopes +0
+//@   case OpMethodNilSafe: operand const
+//@   case OpArray: stack-dyn size + 1
+//@   case OpArray: scopes +0
+//@   case OpArray: operand none
+//@   case OpMap: stack-dyn 2*size + 1
+//@   case OpMap: scopes +0
+//@   case OpMap: operand none
+//@   loop OpCall invariant[pops] len(vm.stack) == pre(len(vm.stack)) - (call.Size - 1 - i)
+//@   loop OpCall invariant[count] call.Size - 1 - i >= 0 && call.Size - 1 - i <= 140737488355328
+//@   loop OpCallFast invariant[pops] len(vm.stack) == pre(len(vm.stack)) - (call.Size - 1 - i)
+//@   loop OpCallFast invariant[count] call.Size - 1 - i >= 0 && call.Size - 1 - i <= 140737488355328
+//@   loop OpMethod invariant[pops] len(vm.stack) == pre(len(vm.stack)) - (call.Size - 1 - i)
+//@   loop OpMethod invariant[count] call.Size - 1 - i >= 0 && call.Size - 1 - i <= 140737488355328
+//@   loop OpMethodNilSafe invariant[pops] len(vm.stack) == pre(len(vm.stack)) - (call.Size - 1 - i)
+//@   loop OpMethodNilSafe invariant[count] call.Size - 1 - i >= 0 && call.Size - 1 - i <= 140737488355328
+//@   loop OpArray invariant[pops] len(vm.stack) == pre(len(vm.stack)) - (size - 1 - i)
+//@   loop OpArray invariant[count] size - 1 - i >= 0 && size - 1 - i <= 140737488355328
+//@   loop OpCall invariant[i] i >= -1
+//@   loop OpCallFast invariant[i] i >= -1
+//@   loop OpMethod invariant[i] i >= -1
+//@   loop OpMethodNilSafe invariant[i] i >= -1
+//@   loop OpArray invariant[i] i >= -1
